@@ -274,8 +274,9 @@ structure Out where
 deriving DecidableEq, Repr
 
 /-- `selectNewHost` (selectionpolicies.go:675-704) after the fallback returned `r`:
-    `http.SetCookie(w, …)` dereferences `w`; `w = false` models the nil ResponseWriter that
-    header / query policies hand to their fallback -/
+    `http.SetCookie(w, …)` dereferences `w`; `w = false` models a caller handing `Select` a nil
+    ResponseWriter (the proxy handler never does; header / query policies pass their own `w`
+    on to the fallback since 4a929dc) -/
 def cookieRes (w : Bool) : Res → Res
   | .sel i => if w then .sel i else .panicNil
   | r => r
@@ -297,10 +298,10 @@ def select : Bool → Policy → Pool → List Nat → Out
   | _, .randomChoose k, pool, ds => ⟨(selRandomChoose k pool ds).1, [], .randomChoose k, (selRandomChoose k pool ds).2⟩
   | _, .hash, pool, ds => ⟨selHash pool, [], .hash, ds⟩
   | _, .keyed true fb, pool, ds => ⟨selHash pool, [], .keyed true fb, ds⟩
-  | _, .keyed false fb, pool, ds =>
-    -- `s.fallback.Select(pool, req, nil)`
-    ⟨(select false fb pool ds).res, (select false fb pool ds).cookies, .keyed false (select false fb pool ds).pol,
-      (select false fb pool ds).draws⟩
+  | w, .keyed false fb, pool, ds =>
+    -- `s.fallback.Select(pool, req, w)`
+    ⟨(select w fb pool ds).res, (select w fb pool ds).cookies, .keyed false (select w fb pool ds).pol,
+      (select w fb pool ds).draws⟩
   | w, .cookie none fb, pool, ds =>
     ⟨cookieRes w (select w fb pool ds).res, (select w fb pool ds).cookies ++ cookieOf w pool (select w fb pool ds).res,
       .cookie none (select w fb pool ds).pol, (select w fb pool ds).draws⟩
